@@ -56,9 +56,10 @@ def run(R):
     R.trusted += ["translator harness/cmd/gen_genesis (+ package cov): syntactic go/ast; a prefix counts as exported / imported when a function reachable from AppModule.ExportGenesis / InitGenesis that performs a store read / write mentions it (directly or through pure key helpers); validated against the observed store diff on every run",
                   "harness/cmd/c12 observers: raw store dumps classified by longest declared prefix, canonical JSON comparison of exports, probes",
                   "no axioms: every theorem of Properties/C12.v is closed under the global context"]
-    R.assume += ["hand models cover gov roles/permissions, gov proposal queues, multistaking counters, staking jail info; all other modules are covered at store-class level (table) and by the ABCI-level differential run only",
+    R.assume += ["hand models cover gov roles/permissions, gov proposal queues, gov identity registrar, multistaking counters, staking jail info, distributor; all other modules are covered at store-class level (table) and by the ABCI-level differential run only",
+                 "the hand models follow the tree through regenerated flags (which keeper functions InitGenesis reaches: role-blacklist loop, queue rebuild, id counters; the version string x/upgrade exports; nil-map writes on export paths); proposal block-height conditions are not modelled",
                  "the re-imported application is started with InitialHeight = exported height + 1 and the exported block time, as a network restart from the export does",
-                 "x/upgrade refuses its own exported version string; the harness rewrites it to SekaiVersion so that the deeper comparison can run (recorded as finding import-panic:upgrade/version)",
+                 "only if InitChain refuses the export with 'invalid genesis version' (regression of 0bb355b) does the harness rewrite the version string so that the deeper comparison can run; the refusal itself is reported as import-panic:upgrade/version",
                  "auth / bank / params / consensus (SDK modules) are compared raw, not modelled"]
     R.gen("gen_genesis", "GenesisCoverage.v")
     R.coq_files(FILES)
